@@ -32,7 +32,7 @@ type uv struct {
 }
 
 type node struct {
-	Op   string // "" for a literal; unary "u+","u-","u^","u!"; binary "+","-",...; "()" for parentheses
+	Op   string // "" for a literal; unary "u+","u-","u^","u!"; binary "+","-",...; "()" for parentheses; builtin calls "real","imag" (X) and "complex" (X, Y)
 	Src  string // literal source text
 	Val  *uv    // literal value (known by construction)
 	X, Y *node
@@ -44,11 +44,17 @@ func (n *node) String() string {
 		return n.Src
 	case n.Op == "()":
 		return "(" + n.X.String() + ")"
+	case n.Op == "real" || n.Op == "imag":
+		return n.Op + "(" + n.X.String() + ")"
+	case n.Op == "complex":
+		return "complex(" + n.X.String() + ", " + n.Y.String() + ")"
 	case n.Y == nil:
 		return n.Op[1:] + n.X.String()
 	}
 	return n.X.String() + " " + n.Op + " " + n.Y.String()
 }
+
+func isCall(op string) bool { return op == "real" || op == "imag" || op == "complex" }
 
 func (n *node) size() int {
 	if n == nil {
@@ -69,13 +75,60 @@ func (n *node) ops(m map[string]bool) {
 }
 
 func paren(n *node) *node {
-	if n.Op == "" && !strings.HasPrefix(n.Src, "-") {
+	if (n.Op == "" && !strings.HasPrefix(n.Src, "-")) || isCall(n.Op) {
 		return n
 	}
 	return &node{Op: "()", X: n}
 }
 func bin(op string, x, y *node) *node { return &node{Op: op, X: paren(x), Y: paren(y)} }
 func un(op string, x *node) *node     { return &node{Op: "u" + op, X: paren(x)} }
+
+// builtin calls on constant operands: real(x), imag(x), complex(x, y)
+func call1(name string, x *node) *node { return &node{Op: name, X: x} }
+func call2(name string, x, y *node) *node { return &node{Op: name, X: x, Y: y} }
+func realOrImag(r *vh.Rng) string {
+	if r.Bool() {
+		return "real"
+	}
+	return "imag"
+}
+
+// zeroImag wraps a real-valued expression into a constant of kind complex with a zero imaginary part: (x + 0i)
+func zeroImag(r *vh.Rng, x *node) *node {
+	z := &node{Src: []string{"0i", "0.0i", "0x0i", "0e5i"}[r.Intn(4)], Val: &uv{K: KComplex, Re: new(big.Rat), Im: new(big.Rat)}}
+	if r.Bool() {
+		return bin("+", x, z)
+	}
+	return bin("-", x, z)
+}
+
+// genBuiltin: a call of real/imag/complex on untyped constant operands whose result kind is <= want (want >= KFloat).
+// real(x), imag(x): x any numeric kind (int, rune, float, complex) -> untyped float;
+// complex(x, y): x, y int/rune/float, sometimes a complex constant with zero imaginary part (accepted by Go) -> untyped complex
+func genBuiltin(r *vh.Rng, depth int, want int) *node {
+	if want >= KComplex && r.Chance(2, 5) {
+		arg := func() *node {
+			x := genNum(r, depth-1, KFloat)
+			if r.Chance(1, 6) {
+				return zeroImag(r, x)
+			}
+			return x
+		}
+		return call2("complex", arg(), arg())
+	}
+	var x *node
+	switch r.Intn(6) {
+	case 0:
+		x = genNum(r, depth-1, KRune) // real(1), imag('a'): the go/constant representation is an integer
+	case 1:
+		x = bin([]string{"+", "-"}[r.Intn(2)], genNum(r, depth-1, KRune), randImagLit(r)) // real(3+2i): integer real part
+	case 2:
+		x = genNum(r, depth-1, KFloat)
+	default:
+		x = genNum(r, depth-1, KComplex)
+	}
+	return call1(realOrImag(r), x)
+}
 
 // ---------- literal formatting ----------
 
@@ -344,21 +397,27 @@ func genNum(r *vh.Rng, depth int, want int) *node {
 			return randImagLit(r)
 		}
 	}
-	switch x := r.Intn(20); {
+	switch x := r.Intn(23); {
+	case x >= 20 && want >= KFloat:
+		return genBuiltin(r, depth, want)
 	case x < 2:
 		return un([]string{"+", "-", "-"}[r.Intn(3)], genNum(r, depth-1, want))
 	case x < 3:
 		return un("^", genNum(r, depth-1, min(want, KRune)))
 	case x < 6:
-		// shifts: count is a small non-negative constant (sometimes float-valued / rune / expression)
+		// shifts: count is a small non-negative constant (sometimes float-valued / rune / expression / builtin call)
 		var cnt *node
-		switch r.Intn(8) {
+		switch r.Intn(9) {
 		case 0:
 			cnt = floatLit(r, big.NewInt(int64(r.Intn(70))), 0, r.Bool())
 		case 1:
 			cnt = bin("+", intLit(r, big.NewInt(int64(r.Intn(100)))), intLit(r, big.NewInt(int64(r.Intn(30)))))
 		case 2:
 			cnt = intLit(r, big.NewInt(int64(r.Intn(1100))))
+		case 3:
+			// an untyped float constant with an integer value is a valid shift count: real(complex(n, m)), imag(m + ni)
+			c := call2("complex", intLit(r, big.NewInt(int64(r.Intn(130)))), intLit(r, big.NewInt(int64(r.Intn(130)))))
+			cnt = call1(realOrImag(r), c)
 		default:
 			cnt = intLit(r, big.NewInt(int64(r.Intn(130))))
 		}
@@ -366,7 +425,12 @@ func genNum(r *vh.Rng, depth int, want int) *node {
 		if r.Bool() {
 			op = ">>"
 		}
-		return bin(op, genNum(r, depth-1, min(want, KRune)), cnt)
+		left := genNum(r, depth-1, min(want, KRune))
+		if r.Chance(1, 8) {
+			// integer-valued untyped float operand produced by a builtin (result: untyped int)
+			left = call1("real", bin("+", left, randImagLit(r)))
+		}
+		return bin(op, left, cnt)
 	case x < 8:
 		return bin(intOps[r.Intn(len(intOps))], genNum(r, depth-1, min(want, KRune)), genNum(r, depth-1, min(want, KRune)))
 	default:
@@ -416,7 +480,7 @@ func genAny(r *vh.Rng, depth int) *node {
 	default:
 		// ill-kinded / invalid operations
 		ops := []string{"+", "-", "*", "/", "%", "&", "|", "^", "&^", "<<", ">>", "==", "!=", "<", "<=", ">", ">=", "&&", "||"}
-		pick := func() *node {
+		lit := func() *node {
 			switch r.Intn(5) {
 			case 0:
 				return genStr(r, 1)
@@ -430,8 +494,25 @@ func genAny(r *vh.Rng, depth int) *node {
 				return genNum(r, 1, KComplex)
 			}
 		}
-		if r.Chance(1, 5) {
+		pick := func() *node {
+			switch r.Intn(8) {
+			case 0:
+				// real("a"), imag(true), real(1i) ...: operands of any kind
+				return call1(realOrImag(r), lit())
+			case 1:
+				// complex("a", 1), complex(1, 2i), complex(1i, 2), complex(1+0i, 2) ...
+				return call2("complex", lit(), lit())
+			case 2:
+				// valid calls used below with operators that are not defined on floats / complex: real(7+3i) % 2, ^real(3+2i)
+				return genBuiltin(r, 2, KFloat+r.Intn(2))
+			}
+			return lit()
+		}
+		switch r.Intn(6) {
+		case 0:
 			return un([]string{"+", "-", "^", "!"}[r.Intn(4)], pick())
+		case 1:
+			return pick()
 		}
 		return bin(ops[r.Intn(len(ops))], pick(), pick())
 	}
